@@ -1,5 +1,5 @@
 """Replay host: rebuild concrete inputs from a replay record and call the untouched library function.  3.7+."""
-from __future__ import annotations
+
 
 import json
 import sys
@@ -21,13 +21,13 @@ def replay_e3(rec):
         return {"violated": bool(msgs), "observed": msgs}
     code = None
     if "file" in recipe:
-        code = compile(open(recipe["file"], "rb").read(), recipe["file"], "exec")
+        code = compile(open(recipe["file"], "rb").read(), recipe["file"], "exec", dont_inherit=True)
     else:
         sid = recipe.get("source_id")
         items = gen.g1_repo_examples() + gen.g2_templates(True) + gen.g3_boundaries(True)
         for id_, src, mode in items:
             if id_ == sid:
-                code = compile(src, "<%s>" % id_, mode, optimize=recipe.get("optimize", 0))
+                code = compile(src, "<%s>" % id_, mode, flags=recipe.get("flags", 0), dont_inherit=True, optimize=recipe.get("optimize", 0))
                 break
     if code is None:
         return {"violated": None, "note": "cannot rebuild input %r" % (recipe,)}
